@@ -46,6 +46,11 @@ pub async fn on_document_selection_range_handle(
 
         for ancestor in token.parent_ancestors() {
             let range = ancestor.text_range();
+            // selection ranges must strictly grow: skip a node that covers exactly
+            // the same text as the previous entry (e.g. Block and Chunk)
+            if ranges.last() == Some(&range) {
+                continue;
+            }
             ranges.push(range);
         }
 
